@@ -4,7 +4,9 @@ import (
 	"fmt"
 	"os"
 	"path/filepath"
+	"runtime"
 	"sort"
+	"strconv"
 	"strings"
 	"sync"
 	"sync/atomic"
@@ -44,6 +46,18 @@ type TermResult struct {
 	Info  string           `json:"info,omitempty"`
 }
 
+// goid returns the id of the calling goroutine (parsed from the first line of its stack trace).
+func goid() int64 {
+	var buf [64]byte
+	n := runtime.Stack(buf[:], false)
+	f := strings.Fields(string(buf[:n]))
+	if len(f) < 2 {
+		return 0
+	}
+	id, _ := strconv.ParseInt(f[1], 10, 64)
+	return id
+}
+
 func init() {
 	extraWorkers["term"] = func(jobFile string) {
 		var job TermJob
@@ -56,17 +70,54 @@ func init() {
 		counts := map[string]*int64{}
 		var aborting int32
 		var abort func(site string, n, lim int64)
+		// per-invocation counts: "<loop>.enter" resets the calling goroutine's counter of "<loop>.step"; the largest
+		// value any invocation reached is reported as "<loop>.step#run" (a fixpoint that stops converging in one function
+		// is invisible in the total over thousands of functions)
+		type runKey struct {
+			g    int64
+			site string
+		}
+		runCur := map[runKey]int64{}
+		runMax := map[string]*int64{}
 		analysis.VerifSetHook(func(site string) {
+			if strings.HasSuffix(site, ".enter") {
+				k := runKey{goid(), strings.TrimSuffix(site, ".enter") + ".step"}
+				mu.Lock()
+				runCur[k] = 0
+				mu.Unlock()
+				return
+			}
 			mu.Lock()
 			c := counts[site]
 			if c == nil {
 				c = new(int64)
 				counts[site] = c
 			}
+			var rn int64
+			var rm *int64
+			if strings.HasSuffix(site, ".step") {
+				k := runKey{goid(), site}
+				if cur, ok := runCur[k]; ok {
+					rn = cur + 1
+					runCur[k] = rn
+					rm = runMax[site]
+					if rm == nil {
+						rm = new(int64)
+						runMax[site] = rm
+						counts[site+"#run"] = rm
+					}
+					if rn > *rm {
+						atomic.StoreInt64(rm, rn)
+					}
+				}
+			}
 			mu.Unlock()
 			n := atomic.AddInt64(c, 1)
 			if lim, ok := job.Limits[site]; ok && n > lim && atomic.CompareAndSwapInt32(&aborting, 0, 1) {
 				abort(site, n, lim)
+			}
+			if lim, ok := job.Limits[site+"#run"]; ok && rn > lim && atomic.CompareAndSwapInt32(&aborting, 0, 1) {
+				abort(site+"#run", rn, lim)
 			}
 		})
 		var fmu sync.Mutex
@@ -327,6 +378,22 @@ func C07(tier string) {
 			}
 		}
 	}
+	// limitOf is the logical step bound of one loop for one run. Programs that do not depend on the seed are compared
+	// with their own committed counts tightly (20x, at least +300); seed-dependent ones (random-*) and runs without a
+	// committed entry loosely (200x, floor 50).
+	limitOf := func(key string, b int64) int64 {
+		_, has := table[key]
+		if has && !strings.HasPrefix(key, "random-") {
+			if 20*b > b+300 {
+				return 20 * b
+			}
+			return b + 300
+		}
+		if b < 50 {
+			b = 50
+		}
+		return 200 * b
+	}
 	baseFor := func(key string) map[string]int64 {
 		if b, ok := table[key]; ok {
 			return b
@@ -347,10 +414,7 @@ func C07(tier string) {
 		if !record {
 			tj.Limits = map[string]int64{}
 			for site, b := range baseFor(p.name + "/" + a.Name) {
-				if b < 50 {
-					b = 50
-				}
-				tj.Limits[site] = 200 * b
+				tj.Limits[site] = limitOf(p.name+"/"+a.Name, b)
 			}
 			for site, b := range siteMax { // loops the committed run of this program never entered
 				if _, ok := tj.Limits[site]; !ok {
@@ -370,7 +434,11 @@ func C07(tier string) {
 			total += v
 		}
 		mu.Lock()
-		newTable[key] = res.Steps
+		if cr.Status == "ok" && res.Done && res.Err == "" {
+			newTable[key] = res.Steps // only complete runs go into a recorded table
+		} else if record {
+			fmt.Printf("RECORD: %s not recorded (status %s, done %v, err %q)\n", key, cr.Status, res.Done, tailStr(res.Err, 80))
+		}
 		if total > maxSteps {
 			maxSteps = total
 		}
@@ -391,11 +459,11 @@ func C07(tier string) {
 			// bounded progress: logical steps against the committed table of the pinned tree
 			if base := baseFor(key); !record {
 				for site, n := range res.Steps {
-					b := base[site]
-					if b < 50 {
-						b = 50
+					b, inBase := base[site]
+					if !inBase {
+						continue // a loop the committed run never entered is bounded by the worker-side limit only
 					}
-					if n > 200*b {
+					if n > limitOf(key, b) {
 						sig := "step-bound:" + key
 						if !run.IsKnown(sig) {
 							run.Violation(sig, fmt.Sprintf("%s: loop %s made %d steps; the pinned tree needs %d on the same program (bound: 200x)", key, site, n, base[site]), files)
@@ -408,11 +476,7 @@ func C07(tier string) {
 			{
 				base := baseFor(key)
 				for site, n := range res.Steps {
-					b := base[site]
-					if b < 50 {
-						b = 50
-					}
-					if n > 200*b {
+					if b, inBase := base[site]; inBase && n > limitOf(key, b) {
 						exceeded = true
 					}
 				}
@@ -431,6 +495,14 @@ func C07(tier string) {
 		}
 	})
 	if record {
+		{
+			// keep the committed entries of the runs this tier does not include or that did not complete
+			for k, v := range table {
+				if _, ok := newTable[k]; !ok {
+					newTable[k] = v
+				}
+			}
+		}
 		core.WriteJSON(filepath.Join(core.VerifDir, "c07_steps.json"), newTable)
 		fmt.Println("recorded step table for", len(newTable), "runs")
 	}
@@ -439,7 +511,7 @@ func C07(tier string) {
 	run.Cov["max_logical_steps_in_one_run"] = maxSteps
 	run.Cov["step_table_entries"] = len(table)
 	run.Sample(map[string]any{"program": progs[0].name, "analyses": c07Analyses})
-	run.Assumptions = append(run.Assumptions, "termination is restated as bounded progress: the loop-head hook counters of every fixpoint/traversal loop stay below 200x the count the pinned tree needs on the same program (committed table c07_steps.json)",
+	run.Assumptions = append(run.Assumptions, "termination is restated as bounded progress: the loop-head hook counters of every fixpoint/traversal loop stay below a multiple of the count the pinned tree needs on the same program (committed table c07_steps.json: 20x and at least +300 for the seed-independent programs, 200x with a floor of 50 for the seed-dependent ones); the worker stops itself when a bound is exceeded",
 		"a wall-clock watchdog alone is inconclusive; a crash (panic, fatal error, non-zero exit of the child) is a violation")
 	run.Finish("exploration", "a fixed hostile corpus (all recursion flavours, recursive data types, defers in loops/branches/goto, generics, bodyless functions with an assembly stub, goto spaghetti, 300-case switch, 200-deep call chain, 1800-instruction function, language odds and ends, goroutine pipelines) plus the generated workloads of the other checks and seeded random programs, each under 10 analysis variants (taint x4, backtrace x2, escape, reachability, defers over all functions, may-panic) in supervised children; "+
 		"distinct non-trivial = (program, analysis) runs whose loop-head hooks fired")
